@@ -19,10 +19,10 @@
 (***************************************************************************)
 EXTENDS Integers, Sequences, FiniteSets, TLC, Json
 
-Sites == {"pm", "pmFromDataset", "pmFromFile", "restpath", "varRx", "ctlRx", "relevantStatus", "rx"}
+Sites == {"pm", "pmFromDataset", "pmFromFile", "restpath", "varRx", "ctlRx", "relevantStatus", "rx", "validateSchema"}
 \* the kind of value a site stores (a type assertion on another kind panics)
 Kind(site) == IF site \in {"pm", "pmFromDataset", "pmFromFile"} THEN "matcher"
-              ELSE IF site = "rx" THEN "rxCompiled" ELSE "regexp"
+              ELSE IF site = "rx" THEN "rxCompiled" ELSE IF site = "validateSchema" THEN "schema" ELSE "regexp"
 
 CONSTANTS KeyDesign,     \* "raw": the key is the author's text (pinned commit) | "namespaced": site + content
           MaxWAFs
@@ -40,7 +40,13 @@ Configs ==
      <<Use("pmFromFile", "words.txt", "abc")>>,
      <<Use("pmFromFile", "words.txt", "xyz")>>,
      <<Use("rx", "abc.def", "abc.def")>>,
-     <<Use("pm", "names", "names"), Use("pmFromDataset", "names", "xyz")>> >>
+     <<Use("pm", "names", "names"), Use("pmFromDataset", "names", "xyz")>>,
+     \* a word list of two words and a data set holding the one phrase made of the same two words
+     <<Use("pm", "abc def", "abc|def")>>,
+     <<Use("pmFromDataset", "phrases", "abc def")>>,
+     \* one schema file name under two roots, two different schemas of the same size
+     <<Use("validateSchema", "schemas/item.json", "required-id")>>,
+     <<Use("validateSchema", "schemas/item.json", "required-sn")>> >>
 
 Key(u) == IF KeyDesign = "raw" THEN u.text ELSE <<u.site, u.content>>
 Artefact(u) == [kind |-> Kind(u.site), site |-> u.site, content |-> u.content]
